@@ -78,6 +78,18 @@ class C05(Property):
                 cases.append({"kind": "lim", "obj": "limit", "n": 1, "scripts": [s0, s1], "sched": sch})
         return cases
 
+    def _pool_overlap(self, rng):
+        """Gets that overlap a create() in progress: the first Get parks inside create() (pool lock
+        held), the others are invoked meanwhile; then everything is released in random order"""
+        n = rng.choice([1, 1, 2, 2, 3])
+        nt = rng.randint(n + 1, n + 3)
+        scripts = [[[0, 0]] + ([[1, 0]] if rng.random() < 0.7 else []) + ([[0, 0]] if rng.random() < 0.3 else [])
+                   for _ in range(nt)]
+        first = list(range(nt))
+        rng.shuffle(first)
+        rest = [rng.randrange(nt) for _ in range(rng.randint(nt, 4 * nt))]
+        return {"kind": "pl", "n": n, "maxage": rng.choice([0, 0, 100]), "scripts": scripts, "sched": first + rest}
+
     def _random(self, rng):
         kind = rng.choice(["lim", "lim", "lim", "tr", "tr", "pl", "pl"])
         n = rng.choice([1, 1, 2, 2, 3, 4])
@@ -114,6 +126,8 @@ class C05(Property):
             if tier == "quick":
                 rng.shuffle(cases)
                 cases = cases[: n // 4]
+        for _ in range(max(40, n // 12)):
+            cases.append(self._pool_overlap(rng))
         while len(cases) < n:
             cases.append(self._random(rng))
         return cases
